@@ -38,7 +38,10 @@ def _cw_tri(a):
 
 def items(tier):
     sol = [a for a in L.solids(tier) if not _has(a, ("translate", "rotate")) and not _cw_tri(a)]
-    return [{"name": G.show(L.B(a)), "ast": a, "tier": tier} for a in L.dedupe(sol)]
+    out = [{"name": G.show(L.B(a)), "ast": a, "tier": tier} for a in L.dedupe(sol)]
+    for a, side in ((L.I01, "bleft"), (L.I01, "bright"), (L.I_MOVE, "bleft"), (L.I_MOVE, "bright"), (L.I_GROW, "bright")):
+        out.append({"name": G.show({"k": side, "a": a}), "ast": a, "tier": tier, "side": side})
+    return out
 
 
 def run_item(item):
@@ -54,8 +57,10 @@ def run_item(item):
         res["violations"].append({"key": key, "what": "%s: %s" % (name, what), "detail": detail or {"ast": a}})
 
     fv = sorted(G.free_vars(a))
+    side = item.get("side")
+    bexpr = {"k": side, "a": a} if side else L.B(a)
     try:
-        D = Bd.build_tp(L.B(a))
+        D = Bd.build_tp(bexpr)
     except Exception as e:
         if is_deliberate(e):
             res["rejected"] += 1
@@ -72,12 +77,13 @@ def run_item(item):
     lvs = [lf for lf, _ in G.leaves(a)]
     flav = "+".join(sorted(leaf_flavors(a)))
 
-    def judge(pts, prm_vals, tag):
-        """pts (n,dim) float64 as returned by the library, prm_vals var->(n,1)"""
+    def judge(pts, prm_vals, tag, Dn=None, with_params=True):
+        """pts (n,dim) float64 as returned by the library, prm_vals var->(n,1); Dn: boundary object to ask"""
+        Dn = D if Dn is None else Dn
         n = len(pts)
         vals = {var: pts}
         vals.update(prm_vals)
-        on = G.near_boundary(a, vals, TOL_ON * scale)
+        on = G.member(bexpr, vals, TOL_ON * scale)
         # junctions: vertices of polygonal leaves, meetings of two leaf boundaries
         close = np.zeros(n, dtype=int)
         nearv = np.zeros(n, dtype=bool)
@@ -95,7 +101,7 @@ def run_item(item):
         R = Bd.points_of(vals, fv)
         res["transitions"] += 1
         try:
-            nrm = D.normal(P, R) if fv else D.normal(P)
+            nrm = Dn.normal(P, R) if (fv and with_params) else Dn.normal(P)
         except Exception as e:
             if is_deliberate(e):
                 res["rejected"] += 1
@@ -148,12 +154,12 @@ def run_item(item):
             try:
                 if s.startswith("grid"):
                     with Seam():
-                        S = Bd.build_tp(L.B(a)).sample_grid(n=int(s[4:]), params=prm1)
+                        S = Bd.build_tp(bexpr).sample_grid(n=int(s[4:]), params=prm1)
                 else:
                     n = int(s.lstrip("netzro"))
                     mode = {"net": "NET", "zero": "ZERO", "one": "ONE"}[s.rstrip("0123456789")]
                     with Seam({0: mode} if mode != "NET" else {}):
-                        S = Bd.build_tp(L.B(a)).sample_random_uniform(n=n, params=prm1)
+                        S = Bd.build_tp(bexpr).sample_random_uniform(n=n, params=prm1)
             except Exception:
                 continue          # sampling failures belong to C01
             pts = S.as_tensor.detach().double().numpy()
@@ -162,6 +168,16 @@ def run_item(item):
             prm_vals = {v: np.full((len(pts), 1), float(x)) for v, x in th.items()}
             judge(pts, prm_vals, "%s at %s" % (s, th))
             collected.append((pts[:24], {v: x[:24] for v, x in prm_vals.items()}))
+            if fv and s == "grid8":
+                # two-step history: evaluate the boundary at the parameter row, then ask the evaluated object
+                try:
+                    De = Bd.build_tp(bexpr)(**{v: torch.tensor(float(x)) for v, x in th.items()})
+                except Exception as e:
+                    if not is_deliberate(e):
+                        viol("C06|error|%s|call|%s" % (type(e).__name__, top_sig(a)), "partial evaluation at %s raised %s" % (th, exc_sig(e)))
+                    continue
+                res["states"].append(st + "|evaluated")
+                judge(pts, prm_vals, "evaluated at %s, then %s" % (th, s), Dn=De, with_params=False)
     # mixed batch: rows with different parameter values in one call
     if fv and len(collected) > 1:
         pts = np.concatenate([c[0] for c in collected])
